@@ -64,30 +64,39 @@ def disk_units():
     return out
 
 
-def tree_hash():
+def _sha_file(path):
+    with open(path, "rb") as fh:
+        return hashlib.sha256(fh.read()).digest()
+
+
+def headers_hash():
+    """Hash of every header (and Makefile.am) under cola/lib*, the extractor binary and the flags."""
     h = hashlib.sha256()
     for lib in LIBS:
         d = os.path.join(COLA, lib)
         for root, dirs, files in os.walk(d):
-            dirs[:] = sorted(x for x in dirs if x not in (".libs", ".deps", "doc"))
+            dirs[:] = sorted(x for x in dirs if x not in (".libs", ".deps", "doc", "tests"))
             for f in sorted(files):
-                if f.endswith((".cpp", ".h", ".am")):
-                    p = os.path.join(root, f)
-                    h.update(p.encode())
-                    with open(p, "rb") as fh:
-                        h.update(hashlib.sha256(fh.read()).digest())
+                if f.endswith((".h", ".am")):
+                    pth = os.path.join(root, f)
+                    h.update(pth.encode())
+                    h.update(_sha_file(pth))
     try:
         st = os.stat(EXTRACTOR)
         h.update(("%d:%d" % (st.st_size, int(st.st_mtime))).encode())
     except OSError:
         raise AnalysisBroken("extractor not built: run MANIFEST.setup_cmd (%s missing)" % EXTRACTOR)
     h.update(" ".join(FLAGS).encode())
-    return h.hexdigest()[:24]
+    return h.hexdigest()
 
 
 def _extract_one(args):
     unit, out = args
     if os.path.exists(out):
+        try:
+            os.utime(out, None)
+        except OSError:
+            pass
         return unit, 0, ""
     cmd = [EXTRACTOR, "--root=" + COLA, "--out=" + out, unit, "--"] + FLAGS
     p = subprocess.run(cmd, stdout=subprocess.PIPE, stderr=subprocess.PIPE, text=True)
@@ -96,23 +105,46 @@ def _extract_one(args):
     return unit, 0, ""
 
 
+def _prune_cache(limit_bytes=700 * 1024 * 1024):
+    try:
+        ents = []
+        for f in os.listdir(CACHE):
+            pth = os.path.join(CACHE, f)
+            if os.path.isfile(pth):
+                st = os.stat(pth)
+                ents.append((st.st_mtime, st.st_size, pth))
+            elif os.path.isdir(pth):
+                subprocess.run(["rm", "-rf", pth])
+        total = sum(e[1] for e in ents)
+        for mt, sz, pth in sorted(ents):
+            if total <= limit_bytes:
+                break
+            try:
+                os.remove(pth)
+            except OSError:
+                pass
+            total -= sz
+    except OSError:
+        pass
+
+
 def extract(units=None, extra_units=()):
-    """Run the extractor over the units (default: all library units); returns {unit: json path}."""
+    """Run the extractor over the units (default: all library units); returns {unit: json path}.
+    Cache key per unit: SHA-256(unit bytes, all headers, extractor, flags) -- a changed source byte
+    re-extracts that unit, a changed header re-extracts everything."""
     if units is None:
         units = all_units()
     units = list(units) + list(extra_units)
-    th = tree_hash()
-    d = os.path.join(CACHE, th)
-    os.makedirs(d, exist_ok=True)
-    # prune older cache generations (disk is limited)
-    for other in os.listdir(CACHE):
-        if other != th and os.path.isdir(os.path.join(CACHE, other)) and len(other) == 24:
-            subprocess.run(["rm", "-rf", os.path.join(CACHE, other)])
+    hh = headers_hash()
+    os.makedirs(CACHE, exist_ok=True)
     jobs = []
     paths = {}
     for u in units:
-        rel = os.path.relpath(u, REPO).replace("/", "__")
-        out = os.path.join(d, rel + ".json")
+        try:
+            uh = hashlib.sha256(hh.encode() + u.encode() + _sha_file(u)).hexdigest()[:32]
+        except OSError as e:
+            raise AnalysisBroken("cannot read unit %s: %s" % (u, e))
+        out = os.path.join(CACHE, "u-%s.json" % uh)
         paths[u] = out
         jobs.append((u, out))
     with ThreadPoolExecutor(max_workers=16) as ex:
@@ -357,9 +389,8 @@ def load_program(units=None):
     """Whole-program load; the merged program is pickled beside the per-unit facts (same tree hash)."""
     import pickle
     paths = extract(units)
-    d = os.path.dirname(next(iter(paths.values())))
-    tag = hashlib.sha256("\n".join(sorted(paths)).encode()).hexdigest()[:12]
-    pk = os.path.join(d, "program-%s.pkl" % tag)
+    tag = hashlib.sha256("\n".join(sorted(paths.values())).encode()).hexdigest()[:32]
+    pk = os.path.join(CACHE, "program-%s.pkl" % tag)
     if os.path.exists(pk):
         try:
             with open(pk, "rb") as fh:
@@ -371,6 +402,7 @@ def load_program(units=None):
     with open(tmp, "wb") as fh:
         pickle.dump(p, fh, protocol=pickle.HIGHEST_PROTOCOL)
     os.replace(tmp, pk)
+    _prune_cache()
     return p
 
 
